@@ -231,7 +231,7 @@ impl Property for C02 {
         "C02"
     }
     fn rule(&self) -> String {
-        "pairs (f,g) of generated trees with out(f)=in(g), dims 1..3, depth <= 3 (thorough 4), K in {2,4} (two-row decisions, four children), each operand total / partial / leaf-rooted, arena layouts with holes and reused indices, g's hyperplanes planted through f(anchor); the composed tree is compared with the reference composition (substitution of f's leaf maps into g's guards) on ALL full-dimensional cells by exact LP and at exact boundary inputs via evaluate(); g must be unchanged, f's nodes keep index/parent, f's decisions are untouched; apply_func(a) likewise. Non-trivial = both operands have a decision (or one is leaf-rooted and the other has >= 2) AND >= 1 input lies exactly on a hyperplane; distinct = distinct serialised cases".into()
+        "pairs (f,g) of generated trees with out(f)=in(g), dims 1..3, depth <= 3 (thorough 4), K in {2,4} (two-row decisions, four children), each operand total / partial / leaf-rooted, arena layouts with holes and reused indices, g's hyperplanes planted through f(anchor); 1 case in 15 composes with a predefined tree (activation / head schema) instead of a generated g, in a middle dimension of 1-4 or 16-20; inputs rarely 8-12 dimensional; arity 8 included; the composed tree is compared with the reference composition (substitution of f's leaf maps into g's guards) on ALL full-dimensional cells by exact LP and at exact boundary inputs via evaluate(); g must be unchanged, f's nodes keep index/parent, f's decisions are untouched; apply_func(a) likewise. Non-trivial = both operands have a decision (or one is leaf-rooted and the other has >= 2) AND >= 1 input lies exactly on a hyperplane; distinct = distinct serialised cases".into()
     }
     fn assumptions(&self) -> Vec<String> {
         vec![
